@@ -59,6 +59,9 @@ package client
   at call(Resource) set resSet := true
   at call(VersionedParams) assert [caller-options-after-namespace-and-resource] (and (= $0 req) nsSet resSet)
   at call(Do) assert [a-plain-list-request-no-watch-prefix-with-the-callers-context] (and (= $0 req) nsSet resSet (= $1 {ctx}))
+  ghost reqErr : V := vnil
+  at call(Error).after set reqErr := $result
+  exit [a-failed-request-is-reported-as-an-error-with-no-list] (=> (not (= reqErr vnil)) (and (= result0 vnil) (not (= result1 vnil))))
 @*/
 /*@ func client.makeResourceWatchFn$1
   props C20
